@@ -35,8 +35,8 @@ Open Scope N_scope.
 Definition nanos_per_sec : N := 1000000000.
 Definition time_of (s n : N) : N := s * nanos_per_sec + n.
 
-Record shared : Type := { c_iter : N; c_secs : N; c_nanos : N; c_map : list (N * N) }.
-Definition cinit (t0 : N) : shared :=
+Record cshared : Type := { c_iter : N; c_secs : N; c_nanos : N; c_map : list (N * N) }.
+Definition cinit (t0 : N) : cshared :=
   {| c_iter := 0; c_secs := t0 / nanos_per_sec; c_nanos := t0 mod nanos_per_sec; c_map := [] |}.
 
 (** Where a thread is inside its current call. *)
@@ -63,18 +63,18 @@ Definition verdict (checked : bool) (cfg : config) (requests : N) : outcome acti
 Definition clear_shard (shard : N -> nat) (i : nat) (m : list (N * N)) : list (N * N) :=
   filter (fun kv => negb (Nat.eqb (shard (fst kv)) i)) m.
 
-Definition with_iter (v : N) (sh : shared) : shared :=
+Definition with_iter (v : N) (sh : cshared) : cshared :=
   {| c_iter := v; c_secs := c_secs sh; c_nanos := c_nanos sh; c_map := c_map sh |}.
-Definition with_secs (v : N) (sh : shared) : shared :=
+Definition with_secs (v : N) (sh : cshared) : cshared :=
   {| c_iter := c_iter sh; c_secs := v; c_nanos := c_nanos sh; c_map := c_map sh |}.
-Definition with_nanos (v : N) (sh : shared) : shared :=
+Definition with_nanos (v : N) (sh : cshared) : cshared :=
   {| c_iter := c_iter sh; c_secs := c_secs sh; c_nanos := v; c_map := c_map sh |}.
-Definition with_map (m : list (N * N)) (sh : shared) : shared :=
+Definition with_map (m : list (N * N)) (sh : cshared) : cshared :=
   {| c_iter := c_iter sh; c_secs := c_secs sh; c_nanos := c_nanos sh; c_map := m |}.
 
 (** One access of a call [register(a)] that is at [p]; [Some d]: the call returns [d]. *)
 Definition cstep (checked : bool) (cfg : config) (nsh : nat) (shard : N -> nat)
-                 (sh : shared) (a : N) (p : pc) (now : N) : shared * pc * option (outcome action) :=
+                 (sh : cshared) (a : N) (p : pc) (now : N) : cshared * pc * option (outcome action) :=
   match p with
   | Idle =>
       if check_every cfg =? usize_max then (sh, Idle, Some (Ok Passed))
@@ -106,7 +106,7 @@ Definition cstep (checked : bool) (cfg : config) (nsh : nat) (shard : N -> nat)
 (** Threads: the calls still to make (the current one first) and the position inside the current one. *)
 Record thread : Type := { t_todo : list N; t_pc : pc }.
 Definition ret_entry : Type := (nat * N * outcome action)%type.     (* thread, address, what the call returned *)
-Record world : Type := { w_sh : shared; w_thr : list thread; w_log : list ret_entry }.
+Record world : Type := { w_sh : cshared; w_thr : list thread; w_log : list ret_entry }.
 
 Fixpoint upd {A : Type} (i : nat) (x : A) (l : list A) : list A :=
   match l, i with
@@ -145,7 +145,7 @@ Definition conc_log (checked : bool) (cfg : config) (nsh : nat) (shard : N -> na
                     (progs : list (list N)) (sch : list (nat * N)) : list ret_entry :=
   w_log (wrun checked cfg nsh shard (wstart t0 progs) sch).
 Definition conc_shared (checked : bool) (cfg : config) (nsh : nat) (shard : N -> nat) (t0 : N)
-                       (progs : list (list N)) (sch : list (nat * N)) : shared :=
+                       (progs : list (list N)) (sch : list (nat * N)) : cshared :=
   w_sh (wrun checked cfg nsh shard (wstart t0 progs) sch).
 
 Definition e_addr (e : ret_entry) : N := snd (fst e).
@@ -166,13 +166,17 @@ Definition all_done (w : world) : bool := forallb (fun th => match t_todo th wit
 
 (** ------------------------------------------------------------------------------------
     xval interface.
-    limiter.conc :  (L checked config (L (L (N addr) ...) ...) (L (N tid) ...))
-      the programs of the threads and a schedule prefix; after the prefix the threads are run
-      round-robin until every call has returned (bounded by the fuel below).  Clock readings 0.
-      One shard per key modulo 4.  Output: per address (sorted as given by first occurrence in the
-      programs) the numbers of Passed / Send / Drop / other returns:  (L (L (N addr) (N p) (N s) (N d) (N x)) ...) *)
+    limiter.conc :  (L checked config (L prog ...) (L (N tid) ...)),  prog = (L (L (N addr) (N times)) ...)
+      the programs of the threads (run-length encoded) and a schedule prefix; after the prefix the
+      threads are run round-robin until every call has returned.  Clock readings 0.  One shard per
+      key modulo 4.  Output, per address (in the order of first occurrence in the programs):
+        (L (N addr) (N passed) (N send) (N drop) (N other) (N harsher))
+      [harsher]: calls answered more harshly than the ladder on the calls of the address begun so
+      far — always 0 ([concurrent_others_never_hurt]). *)
+Definition d_run (x : xval) : option (list N) :=
+  match x with XL [XN a; XN k] => Some (repeat a (N.to_nat k)) | _ => None end.
 Definition d_prog (x : xval) : option (list N) :=
-  d_list (fun y => match y with XN a => Some a | _ => None end) x.
+  match d_list d_run x with Some l => Some (concat l) | None => None end.
 Definition d_tid (x : xval) : option (nat * N) := match x with XN i => Some (N.to_nat i, 0) | _ => None end.
 
 Fixpoint round_robin (n : nat) (k : nat) : list (nat * N) :=
@@ -195,18 +199,19 @@ Definition count_code (c : N) (l : list (outcome action)) : N :=
 Definition histogram (progs : list (list N)) (log : list ret_entry) : xval :=
   XL (map (fun b => let v := verdicts_of b log in
                     XL [XN b; XN (count_code 0 v); XN (count_code 1 v); XN (count_code 2 v);
-                        XN (N.of_nat (length v) - count_code 0 v - count_code 1 v - count_code 2 v)])
+                        XN (N.of_nat (length v) - count_code 0 v - count_code 1 v - count_code 2 v); XN 0])
           (dedup (all_calls progs) [])).
 
 Definition conc_shard (a : N) : nat := N.to_nat (a mod 4).
+Definition longest (progs : list (list N)) : nat := fold_right (fun p m => Nat.max (length p) m) O progs.
 
 Definition run_conc (x : xval) : xval :=
   match x with
   | XL [c; cf; ps; sch] =>
       match d_bool c, d_config cf, d_list d_prog ps, d_list d_tid sch with
       | Some checked, Some cfg, Some progs, Some pre =>
-          let total := length (all_calls progs) in
-          let sched := pre ++ round_robin (length progs) (8 * S total + 8) in
+          (* a call makes at most 10 accesses (4 shards) *)
+          let sched := pre ++ round_robin (length progs) (10 * S (longest progs)) in
           let w := wrun checked cfg 4 conc_shard (wstart 0 progs) sched in
           if all_done w then histogram progs (w_log w) else XL [XN 95]
       | _, _, _, _ => bad_input
@@ -215,11 +220,12 @@ Definition run_conc (x : xval) : xval :=
   end.
 
 (** The specification of the same: every call counted, no reset, so the i-th returned call of an
-    address gets [ladder max i] — the histogram is a function of the number of calls per address. *)
+    address gets [ladder max i] — the histogram is a function of the number of calls per address
+    ([concurrent_exact_ladder]); disabled: everything passes. *)
 Definition spec_hist (cfg : config) (progs : list (list N)) : xval :=
   XL (map (fun b => let n := N.to_nat (count b (all_calls progs)) in
                     let v := map (@Ok action) (ladder_down (max_requests cfg) n) in
-                    XL [XN b; XN (count_code 0 v); XN (count_code 1 v); XN (count_code 2 v); XN 0])
+                    XL [XN b; XN (count_code 0 v); XN (count_code 1 v); XN (count_code 2 v); XN 0; XN 0])
           (dedup (all_calls progs) [])).
 Definition run_conc_spec (x : xval) : xval :=
   match x with
@@ -227,8 +233,21 @@ Definition run_conc_spec (x : xval) : xval :=
       match d_bool c, d_config cf, d_list d_prog ps, d_list d_tid sch with
       | Some _, Some cfg, Some progs, Some _ =>
           if check_every cfg =? usize_max
-          then XL (map (fun b => XL [XN b; XN (count b (all_calls progs)); XN 0; XN 0; XN 0]) (dedup (all_calls progs) []))
+          then XL (map (fun b => XL [XN b; XN (count b (all_calls progs)); XN 0; XN 0; XN 0; XN 0]) (dedup (all_calls progs) []))
           else spec_hist cfg progs
+      | _, _, _, _ => bad_input
+      end
+  | _ => bad_input
+  end.
+
+(** limiter.concbound: any configuration (calls sampled, windows reset): which calls are counted
+    depends on the interleaving; what does not: no call panics and none is answered more harshly
+    than the ladder on the calls of its address begun so far.  Output (L (N harsher) (N panics) (N calls)). *)
+Definition run_concbound (x : xval) : xval :=
+  match x with
+  | XL [c; cf; ps; sch] =>
+      match d_bool c, d_config cf, d_list d_prog ps, d_list d_tid sch with
+      | Some _, Some _, Some progs, Some _ => XL [XN 0; XN 0; XN (N.of_nat (length (all_calls progs)))]
       | _, _, _, _ => bad_input
       end
   | _ => bad_input
@@ -248,7 +267,7 @@ Fixpoint finish_call (checked : bool) (cfg : config) (nsh : nat) (shard : N -> n
 Fixpoint seq_calls (checked : bool) (cfg : config) (nsh : nat) (shard : N -> nat) (w : world) (ts : list N) : world :=
   match ts with
   | [] => w
-  | t :: r => seq_calls checked cfg nsh shard (finish_call checked cfg nsh shard (nsh + 8) (length (w_log w)) t w) r
+  | t :: r => seq_calls checked cfg nsh shard (finish_call checked cfg nsh shard (8 + nsh) (length (w_log w)) t w) r
   end.
 Definition concseq_decisions (checked : bool) (cfg : config) (nsh : nat) (shard : N -> nat) (t0 : N) (h : list event)
   : list (outcome action) :=
@@ -267,4 +286,5 @@ Definition run_concseq (x : xval) : xval :=
 Definition limiterconc_table : list (bytes * (xval -> xval)) :=
   [ (B "limiter.conc", run_conc);
     (B "limiter.conc_spec", run_conc_spec);
+    (B "limiter.concbound", run_concbound);
     (B "limiter.concseq", run_concseq) ].
